@@ -5,14 +5,24 @@ import mvs_common
 def run(c):
     return mvs_common.run(
         c, "C10",
-        rule=("generated universes: 2-8 project directories (some nested, some with several major versions, v0 and v1 sharing "
-              "one path), 1-5 tagged versions each incl. prereleases, 0-3 requirement edges per version at three densities "
+        rule=("generated universes: ONE repository with 2-8 project directories (nested ones, in a fifth of the universes also the "
+              "project at the repository root; path-prefixed tags `dir/vX.Y.Z`; several major versions, v0 and v1 sharing one "
+              "path), 1-5 tagged versions each incl. prereleases; in 30% of the projects the versions come from digit-boundary "
+              "pools (v1.9.10/v1.10.0, v1.2.10/v1.10.2, -9.ab/-10.a, rc.9/rc.10, v1.0.9-rc.10/v1.0.10-rc.1: equal-length strings "
+              "whose text order is not their version order) and diamonds are forced onto such pairs; in half of the universes "
+              "1-3 requirements at PSEUDO-versions (a sibling directory as of some revision, required by tagged versions or by "
+              "the project file, so that the resolver finds the directory through its repository cache after siblings were "
+              "looked up, in both orders); 0-3 requirement edges per version at three densities "
               "(diamonds, cycles, self-cycles, a requirement that cannot be fetched in ~2.5% of universes), forced diamond / "
               "cycle shapes in a quarter of them; root requirement sets of 0-5 names incl. two names for one path; every case is "
               "asked cold, disk-warm and memory-warm and with every requirement list declared in a second order. The model is "
               "run on both declaration orders. Non-trivial = BuildList succeeds; distinct by driver input line. Plus semver "
-              "strings (hand-picked boundary forms and generated) compared with x/mod/semver."),
-        judge_note="BuildList map (without the root entry) == reachability/max reference; list has each path once; "
+              "strings (hand-picked boundary forms incl. multi-digit and numeric-prerelease pairs, and generated ones with a "
+              "component bumped across a digit boundary) compared with x/mod/semver, and dawn's cmpVersion judged against the "
+              "reference order. The reference build list is computed from the universe the generator intended (a pseudo-version "
+              "declares what its directory says at its revision), never from what the resolver fetched."),
+        judge_note="BuildList map (without the root entry) == reachability/max reference over the intended universe; cmpVersion == "
+                   "reference order on canonical versions; list has each path once; "
                    "error iff a reachable requirement cannot be fetched; 5 repeats across cold/disk/mem caches and a permuted "
                    "declaration order give the same answer")
 
